@@ -23,7 +23,8 @@ META = {
         "__repr__/__str__, un-picklable object, object that pickles but cannot be unpickled (also inside a list), an "
         "exception instance, lone-surrogate str, NaN}; (b) every chain shape of depth <= 3 over link kinds "
         "{cause, context, suppressed context, both to the same node, both to different nodes}; (c) every linear chain of depth "
-        "<= 6 with per-edge link kind and every back-edge (cycle) position; each through four round trips (JSON text, JSON "
+        "<= 6 with per-edge link kind and every back-edge (cycle) position; (d) every exception graph over 3 nodes (per node "
+        "any cause, any context, suppress flag; incl. self-loops, cycles and nodes reachable by several routes); each through four round trips (JSON text, JSON "
         "dict via model_dump(mode='json') + json, python dict, pickle). Oracle: no exception from dump or load; the loaded "
         "error is an exception; if the class resolves by module + qualname, is reconstructible from its args and every arg is "
         "representable in the encoding, then same class and equal args, else an allowed stand-in (same-named synthetic class, a "
@@ -32,7 +33,7 @@ META = {
         "The oracle never calls repr/str on loaded arguments. distinct_nontrivial = distinct (class kind, arg kinds, trip, verdict class)."
     ),
     "assumptions": ["classes are planted in a module registered in sys.modules; pickling happens in-process"],
-    "required_counters": ["roundtrips", "exact_reconstructions", "standins", "chains_checked", "cycles_cut"],
+    "required_counters": ["roundtrips", "exact_reconstructions", "standins", "chains_checked", "cycles_cut", "graphs_checked"],
     "bounds": {"quick": {"arity": 2, "chain_depth": 4}, "thorough": {"arity": 2, "chain_depth": 6}},
 }
 
@@ -497,6 +498,46 @@ def build_chain(case: Tuple[Any, ...]) -> BaseException:
     return root
 
 
+def graph_cases(tier: str) -> List[Tuple[Any, ...]]:
+    """Every exception graph over 3 nodes: per node cause in {None, any node}, context in {None,
+    any node}, explicit __suppress_context__ (quick: varied on the root only); node 0 is the
+    raised exception; graphs with a node unreachable from it are skipped (they are covered by a
+    smaller graph)."""
+    n = 3
+    opts = [None] + list(range(n))
+    out = []
+    sup_opts = [(False,) * n, (True,) + (False,) * (n - 1)] if tier == "quick" else list(itertools.product((False, True), repeat=n))
+    for causes in itertools.product(opts, repeat=n):
+        for ctxs in itertools.product(opts, repeat=n):
+            reach = {0}
+            stack = [0]
+            while stack:
+                k = stack.pop()
+                for t in (causes[k], ctxs[k]):
+                    if t is not None and t not in reach:
+                        reach.add(t)
+                        stack.append(t)
+            if len(reach) != n:
+                continue
+            for sup in sup_opts:
+                out.append((causes, ctxs, sup))
+    return out
+
+
+def build_graph(case: Tuple[Any, ...]) -> BaseException:
+    t = class_table()
+    causes, ctxs, sup = case
+    pool = [t["ValueError"], t["Plain"], t["Inner"]]
+    nodes = [pool[i](f"g{i}", i) for i in range(len(causes))]
+    for i, nd in enumerate(nodes):
+        if ctxs[i] is not None:
+            nd.__context__ = nodes[ctxs[i]]
+        if causes[i] is not None:
+            nd.__cause__ = nodes[causes[i]]
+        nd.__suppress_context__ = sup[i]
+    return nodes[0]
+
+
 # ------------------------------------------------------------------------------------------ driver
 
 def single_cases() -> List[Tuple[str, Tuple[int, ...]]]:
@@ -518,6 +559,8 @@ def shards(tier: str, seed: int) -> List[Any]:
     out.append(("special", tier, 0, 0))
     m = len(chain_cases(tier))
     out += [("chain", tier, i, min(i + 150, m)) for i in range(0, m, 150)]
+    g = len(graph_cases(tier))
+    out += [("graph", tier, i, min(i + 700, g)) for i in range(0, g, 700)]
     return out
 
 
@@ -542,6 +585,13 @@ def run_shard(shard: Any) -> Dict[str, Any]:
         for trip in TRIPS:
             for nm, exc in special_instances():
                 check(nm, ("special",), exc, trip, acc, rp={"special": [nm, trip]})
+    elif kind == "graph":
+        for gi, case in enumerate(graph_cases(tier)[lo:hi]):
+            for trip in ("json-text", "json-dict", "py-dict"):
+                acc.count("graphs_checked")
+                check("graph", ("graph",), build_graph(case), trip, acc, chain=True, rp={"graph": [lo + gi, tier, trip]})
+            if gi % 331 == 0:
+                acc.sample({"graph_case": {"causes": case[0], "contexts": case[1], "suppress": case[2]}})
     else:
         for ci, case in enumerate(chain_cases(tier)[lo:hi]):
             for trip in TRIPS:
@@ -578,6 +628,9 @@ def replay(obj: Dict[str, Any]) -> int:
     elif "special" in obj:
         nm, trip = obj["special"]
         check(nm, ("special",), dict(special_instances())[nm], trip, acc)
+    elif "graph" in obj:
+        gi, tier, trip = obj["graph"]
+        check("graph", ("graph",), build_graph(graph_cases(tier)[gi]), trip, acc, chain=True)
     elif "chain" in obj:
         ci, tier, trip = obj["chain"]
         case = chain_cases(tier)[ci]
